@@ -194,6 +194,26 @@ def run_flash(case):
     if (t.page_size, t.buffer_pages, t.flash_pages, t.start_page) != (ps, bp, fpg, sp):
         out.fail('flash:info-parse', 'target says %r, parsed %r' % (geo, (t.page_size, t.buffer_pages, t.flash_pages, t.start_page)))
         return out
+    if case.get('prior'):
+        # the same Bootloader object has an aborted flashing behind it (its flash-write was refused): the next one starts from scratch
+        link.plan = ['negative']
+        prior_img = bytes((i * 13 + 1) & 0xff for i in range(case['prior']))
+        try:
+            with contextlib.redirect_stdout(sink):
+                bl._internal_flash(FlashArtifact(prior_img, Target('cf2', case['target'], 'fw', [], []), None), page_override=case['override'])
+        except Exception:  # noqa
+            pass
+        link._flush()
+        aborted = any(a == 'negative' for _, _, a in link.flash_cmds)
+        out.feat('after-an-aborted-flashing' if aborted else 'after-a-refused-image')
+        del link.rx[:]
+        link.later = []
+        link.plan = list(plan)
+        link.flash_cmds = []
+        link.flash = {}
+        link.coverage = {}
+        link.loads = [0] * len(link.buffer)
+        link.bad = []
     pre = len(link.sent)
     art = FlashArtifact(image, Target('cf2', case['target'], 'fw', [], []), None)
     raised = None
@@ -325,6 +345,7 @@ def flash_case(draw):
     plan = draw(st.one_of(st.just([]), st.lists(st.sampled_from(_ACTIONS + ['ok'] * 4), max_size=14)))
     return {'geo': {'page_size': ps, 'buffer_pages': bp, 'flash_pages': fpg, 'start_page': sp}, 'target': draw(st.sampled_from(['stm32', 'nrf51'])),
             'override': override, 'length': n, 'plan': plan, 'progress': draw(st.booleans()), 'deferred': draw(st.sampled_from([False, False, True])),
+            'prior': draw(st.sampled_from([None, None, None, 1, ps, ps + 1, buf, buf + 1, 2 * buf + ps])),
             'fill': draw(st.one_of(st.none(), st.tuples(st.sampled_from([0, 0, 0xFF]), st.lists(st.integers(0, 1 << 16), max_size=4),
                                                          st.sampled_from([1, 24, 25, 26, 60, 200]), st.sampled_from([0, 1, 24, 25, 30, 100, 2000]))))}
 
@@ -597,6 +618,8 @@ def boundary_cases(tier):
                     yield {'geo': geo, 'target': target, 'override': override, 'length': 0, 'plan': [], 'progress': progress}
             for n in (1, 25, 26, ps, ps + 1, ps * bp, ps * bp + 26, 2 * ps * bp + ps):
                 yield {'geo': geo, 'target': target, 'override': None, 'length': n, 'plan': [], 'progress': False, 'deferred': True}
+                for prior in (1, ps + 1, ps * bp + 1):
+                    yield {'geo': geo, 'target': target, 'override': None, 'length': n, 'plan': [], 'progress': False, 'prior': prior}
 
 
 def subchecks(tier):
